@@ -17,6 +17,13 @@ def checkSearch (repos : List Repo) (matching : List Doc) (hits : List Doc) : Bo
   hits.all (fun d => matching.contains d) &&
   matching.all (fun d => hidden repos d || hits.contains d)
 
+/-- search results under a per-repository limit: nothing hidden appears, only matching documents appear, and whatever
+    the limit removes, the first matching visible document of every repository is still there -/
+def checkSearchLim (repos : List Repo) (matching : List Doc) (hits : List Doc) : Bool :=
+  hits.all (fun d => !hidden repos d) &&
+  hits.all (fun d => matching.contains d) &&
+  matching.all (fun d => hidden repos d || hits.any (fun h => h.repo == d.repo))
+
 /-- listings never contain a tombstoned repository -/
 def checkList (repos : List Repo) (listed : List Nat) : Bool :=
   listed.all fun i => (repos[i]?).any fun r => !r.tomb
